@@ -40,11 +40,19 @@ type reqT struct {
 	Meth string `json:"meth"`
 }
 
+// customT: a rule whose filter is a custom function using ctx.GetType / ctx.GetInterface with a fully-qualified name
+type customT struct {
+	Call   string `json:"call"` // GetInterface or GetType
+	FQN    string `json:"fqn"`
+	Target string `json:"target"` // documented meaning: the name as written, whatever the group imports
+}
+
 type groupT struct {
-	Name    string   `json:"name"`
-	Skip    bool     `json:"skip"`
-	Imports []string `json:"imports"`
-	Reqs    []reqT   `json:"reqs"`
+	Name    string    `json:"name"`
+	Skip    bool      `json:"skip"`
+	Imports []string  `json:"imports"`
+	Reqs    []reqT    `json:"reqs"`
+	Custom  []customT `json:"custom"`
 }
 
 type scenario struct {
@@ -52,8 +60,11 @@ type scenario struct {
 	Groups  []groupT            `json:"groups"`
 	Rules   string              `json:"rules"`
 	LoadErr string              `json:"load_err"`
-	Obs     map[string][]string `json:"obs"`      // rule id -> probes reported
-	OFailed bool                `json:"o_failed"` // oracle: the load must fail
+	Obs     map[string][]string `json:"obs"` // rule id -> probes reported
+	// the same file through VerifConvertAST + Engine.LoadFromIR into a second engine
+	LoadErrIR string              `json:"load_err_ir"`
+	ObsIR     map[string][]string `json:"obs_ir"`
+	OFailed   bool                `json:"o_failed"` // oracle: the load must fail
 	// oracle: the load must fail because a type pattern names something its package does not declare (or the package
 	// cannot be imported); the engine's parser never looks into packages (recorded finding), so this is kept apart
 	OUnknownTypeName string            `json:"o_unknown_type_name"`
@@ -210,7 +221,24 @@ func (q reqT) where() string {
 
 func renderRules(sc *scenario) string {
 	var b strings.Builder
-	b.WriteString("package gorules\n\nimport \"github.com/quasilyte/go-ruleguard/dsl\"\n\n")
+	hasCustom := false
+	for _, g := range sc.Groups {
+		hasCustom = hasCustom || len(g.Custom) > 0
+	}
+	if hasCustom {
+		b.WriteString("package gorules\n\nimport (\n\t\"github.com/quasilyte/go-ruleguard/dsl\"\n\t\"github.com/quasilyte/go-ruleguard/dsl/types\"\n)\n\n")
+	} else {
+		b.WriteString("package gorules\n\nimport \"github.com/quasilyte/go-ruleguard/dsl\"\n\n")
+	}
+	for _, g := range sc.Groups {
+		for j, cu := range g.Custom {
+			if cu.Call == "GetInterface" {
+				fmt.Fprintf(&b, "func f_%s_c%d(ctx *dsl.VarFilterContext) bool {\n\treturn types.Implements(ctx.Type, ctx.GetInterface(`%s`))\n}\n\n", g.Name, j, cu.FQN)
+			} else {
+				fmt.Fprintf(&b, "func f_%s_c%d(ctx *dsl.VarFilterContext) bool {\n\treturn types.Identical(ctx.Type, ctx.GetType(`%s`))\n}\n\n", g.Name, j, cu.FQN)
+			}
+		}
+	}
 	for _, g := range sc.Groups {
 		fmt.Fprintf(&b, "func %s(m dsl.Matcher) {\n", g.Name)
 		for _, imp := range g.Imports {
@@ -218,6 +246,9 @@ func renderRules(sc *scenario) string {
 		}
 		for j, q := range g.Reqs {
 			fmt.Fprintf(&b, "\tm.Match(`probe_%s_r%d($x)`).Where(%s).Report(`%s_r%d $x`)\n", g.Name, j, q.where(), g.Name, j)
+		}
+		for j := range g.Custom {
+			fmt.Fprintf(&b, "\tm.Match(`probe_%s_c%d($x)`).Where(m[\"x\"].Filter(f_%s_c%d)).Report(`%s_c%d $x`)\n", g.Name, j, g.Name, j, g.Name, j)
 		}
 		b.WriteString("}\n\n")
 	}
@@ -351,7 +382,11 @@ func (o *oracle) satisfied(op, wrap, target string) []string {
 				}
 			}
 			if nt, isN := tt.(*types.Named); isN && nt.Obj().Pkg() != nil {
-				ok = nt.Obj().Name() == f[2] && stripVendor(nt.Obj().Pkg().Path()) == f[1]
+				pp := nt.Obj().Pkg().Path()
+				if op != "cident" {
+					pp = stripVendor(pp)
+				}
+				ok = nt.Obj().Name() == f[2] && pp == f[1]
 			}
 		case "ResIface":
 			it := o.pkg(f[1]).Scope().Lookup(f[2]).Type().Underlying().(*types.Interface)
@@ -422,6 +457,15 @@ func main() {
 		mk(g(false, nil, fr("foo", "Iface", "MA"))),
 		mk(g(false, []string{fio}, tp("", "io", "OnlyFake")), g(false, nil, iq("io", "Writer"), iq("io", "StringWriter"), fr("io", "StringWriter", "WriteString"))),
 	}
+	cg := func(imports []string, cs ...customT) groupT { return groupT{Imports: imports, Custom: cs} }
+	scs = append(scs,
+		// a fully-qualified name means that package whatever the group imports ("io" is the path of the stdlib package)
+		mk(cg([]string{fio}, customT{"GetInterface", "io.Reader", "ResIface io Reader"}, customT{"GetInterface", "example.com/io.Reader", "ResIface example.com/io Reader"}),
+			cg(nil, customT{"GetInterface", "io.Reader", "ResIface io Reader"}, customT{"GetInterface", "example.com/io.Reader", "ResIface example.com/io Reader"})),
+		mk(cg([]string{bfoo}, customT{"GetType", "example.com/a/foo.T", "ResType example.com/a/foo T"}, customT{"GetInterface", "example.com/a/foo.Iface", "ResIface example.com/a/foo Iface"}),
+			cg([]string{afoo}, customT{"GetType", "example.com/b/foo.T", "ResType example.com/b/foo T"}, customT{"GetInterface", "example.com/b/foo.Iface", "ResIface example.com/b/foo Iface"})),
+		mk(cg([]string{"example.com/c20/lib"}, customT{"GetType", "example.com/c20/lib.T", "ResType example.com/c20/lib T"}, customT{"GetInterface", "example.com/c20/lib.Doer", "ResIface example.com/c20/lib Doer"})),
+	)
 	for i := 0; i < *nscen; i++ {
 		var sc scenario
 		for k, n := 0, 1+r.Intn(3); k < n; k++ {
@@ -468,6 +512,13 @@ func main() {
 				}
 				tb.WriteString("}\n")
 			}
+			for j := range gr.Custom {
+				fmt.Fprintf(&tb, "\nfunc probe_%s_c%d(interface{}) {}\nfunc use_%s_c%d() {\n", name, j, name, j)
+				for k := 0; k < nProbes; k++ {
+					fmt.Fprintf(&tb, "\tprobe_%s_c%d(p%02d)\n", name, j, k)
+				}
+				tb.WriteString("}\n")
+			}
 		}
 	}
 	fullTarget := tb.String()
@@ -498,6 +549,7 @@ func main() {
 	fset := token.NewFileSet()
 	eng := ruleguard.NewEngine()
 	lctx := &ruleguard.LoadContext{Fset: fset, GroupFilter: func(gr *ruleguard.GoRuleGroup) bool { return !strings.HasPrefix(gr.Name, "skip_") }}
+	engIR := ruleguard.NewEngine()
 	usedStd := map[string]bool{}
 	for si := range scs {
 		sc := &scs[si]
@@ -525,7 +577,47 @@ func main() {
 				sc.LoadErr = err.Error()
 			}
 		}()
+		func() {
+			defer func() {
+				if p := recover(); p != nil {
+					sc.LoadErrIR = fmt.Sprintf("PANIC: %v", p)
+				}
+			}()
+			hasCustom := false
+			for _, gr := range sc.Groups {
+				hasCustom = hasCustom || len(gr.Custom) > 0
+			}
+			if hasCustom {
+				sc.LoadErrIR = "n/a" // custom filter functions are compiled by Load only
+				return
+			}
+			irf, err := ruleguard.VerifConvertAST(engIR, lctx, fmt.Sprintf("s%d.go", si), []byte(sc.Rules))
+			if err == nil {
+				err = engIR.LoadFromIR(lctx, fmt.Sprintf("s%d.go", si), irf)
+			}
+			if err != nil {
+				sc.LoadErrIR = err.Error()
+			}
+		}()
 		// oracle
+		for _, gr := range sc.Groups {
+			for j, cu := range gr.Custom {
+				// types.Identical(ctx.Type, ctx.GetType(fqn)) is plain identity with the named package (no vendor stripping:
+				// that is a convention of type patterns only)
+				op := "cident"
+				if cu.Call == "GetInterface" {
+					op = "impl"
+				}
+				sc.OTarget[fmt.Sprintf("%s_c%d", gr.Name, j)] = cu.Target
+				key := op + "||" + cu.Target
+				if _, done := o.Table[key]; !done {
+					o.Table[key] = orc.satisfied(op, "", cu.Target)
+					if o.Table[key] == nil {
+						o.Table[key] = []string{}
+					}
+				}
+			}
+		}
 		for _, gr := range sc.Groups {
 			if gr.Skip {
 				continue
@@ -570,26 +662,41 @@ func main() {
 	// ---- one run over the target
 	tfile := u.Files["example.com/c20/target"]
 	target := &hutil.Target{Fset: u.Fset, File: tfile, Info: u.Infos["example.com/c20/target"], Pkg: tpkg, Src: []byte(fullTarget), Path: "example.com/c20/target/src.go"}
-	reports, pmsg := hutil.Run(eng, target, 0, "", nil)
-	o.RunPanic = pmsg
-	byRule := map[string][]string{}
-	for _, rep := range reports {
-		f := strings.Fields(rep.Message)
-		if len(f) == 2 {
-			byRule[f[0]] = append(byRule[f[0]], f[1])
+	collect := func(e *ruleguard.Engine, dst func(sc *scenario) map[string][]string) string {
+		reports, pmsg := hutil.Run(e, target, 0, "", nil)
+		byRule := map[string][]string{}
+		for _, rep := range reports {
+			f := strings.Fields(rep.Message)
+			if len(f) == 2 {
+				byRule[f[0]] = append(byRule[f[0]], f[1])
+			}
 		}
-	}
-	for si := range scs {
-		sc := &scs[si]
-		for _, gr := range sc.Groups {
-			for j := range gr.Reqs {
-				id := fmt.Sprintf("%s_r%d", gr.Name, j)
-				if v, ok := byRule[id]; ok {
-					sort.Strings(v)
-					sc.Obs[id] = v
+		for si := range scs {
+			sc := &scs[si]
+			for _, gr := range sc.Groups {
+				ids := []string{}
+				for j := range gr.Reqs {
+					ids = append(ids, fmt.Sprintf("%s_r%d", gr.Name, j))
+				}
+				for j := range gr.Custom {
+					ids = append(ids, fmt.Sprintf("%s_c%d", gr.Name, j))
+				}
+				for _, id := range ids {
+					if v, ok := byRule[id]; ok {
+						sort.Strings(v)
+						dst(sc)[id] = v
+					}
 				}
 			}
 		}
+		return pmsg
+	}
+	o.RunPanic = collect(eng, func(sc *scenario) map[string][]string { return sc.Obs })
+	for si := range scs {
+		scs[si].ObsIR = map[string][]string{}
+	}
+	if p := collect(engIR, func(sc *scenario) map[string][]string { return sc.ObsIR }); p != "" {
+		o.RunPanic += " | IR engine: " + p
 	}
 	o.Scenarios = scs
 
